@@ -363,7 +363,7 @@ class Gen:
         return any(c.search(name) for c in s.cut)
 
     # ---- whole closure
-    def emit(s, roots, extra_protos=(), after_prelude=''):
+    def emit(s, roots, extra_protos=(), after_prelude='', need_types=()):
         m = s.m
         todo = list(roots); done = {}; order = []
         while todo:
@@ -378,6 +378,7 @@ class Gen:
             order.append(n)
             todo += sorted(ft.called)
         s.order = order
+        for t in need_types: s.need(t)
         body = '\n\n'.join(done[n] for n in order)
         # prototypes for everything referenced
         protos = []
